@@ -162,6 +162,10 @@ Proof.
   intros tg p Htg. cbn in Htg. destruct Htg as [<-|[<-|[<-|[]]]]; destruct p as [[|q|q]|]; vm_compute; reflexivity.
 Qed.
 
+(* the Python SERVICE class (py/templates/ServiceType.j2) exports the service's fixed port id exactly when it has one *)
+Theorem exported_svc_port_exact : forall p, exported_port_k TgtPy KSvcPortId p = Some p.
+Proof. intros [[|q|q]|]; vm_compute; reflexivity. Qed.
+
 (* ---- exported names and flags ---- *)
 Theorem names_ok_holds : names_ok = true.
 Proof. vm_compute. reflexivity. Qed.
@@ -175,6 +179,56 @@ Proof. intros [[|q|q]|] [|]; split; vm_compute; reflexivity. Qed.
 (* _traits_::IsServiceType is true exactly for the request / response types of a service *)
 Theorem cpp_is_service_type_exact : forall p svc, exported_flag TgtCpp n_cpp_is_service_type p svc = Some svc.
 Proof. intros [[|q|q]|] [|]; vm_compute; reflexivity. Qed.
+
+(* the C++ service wrapper `Svc_M_m::_traits_` (cpp/templates/ServiceType.j2): a service type, the service itself, neither request
+   nor response *)
+Theorem cpp_service_wrapper_traits_exact : forall p svc,
+  exported_flag TgtCpp (n_cpp_svc n_cpp_is_service_type) p svc = Some true /\
+  exported_flag TgtCpp (n_cpp_svc n_IsService) p svc = Some true /\
+  exported_flag TgtCpp (n_cpp_svc n_IsRequest) p svc = Some false /\
+  exported_flag TgtCpp (n_cpp_svc n_IsResponse) p svc = Some false.
+Proof. intros [[|q|q]|] [|]; vm_compute; repeat split; reflexivity. Qed.
+
+(* ---- the flat macro namespace of a C header (finding F-C-MACRO-CLASH) ---- *)
+Lemma lstr_eqb_eq a : forall b, lstr_eqb a b = true <-> a = b.
+Proof.
+  induction a as [|x a IH]; intros [|y b]; cbn [lstr_eqb]; split; intro H; try discriminate; try reflexivity.
+  - apply andb_true_iff in H. destruct H as [H1 H2]. apply N.eqb_eq in H1. apply IH in H2. subst. reflexivity.
+  - injection H as -> ->. apply andb_true_iff. split; [apply N.eqb_refl|apply IH; reflexivity].
+Qed.
+
+Lemma last_def_absent l nm : existsb (fun '(k', _) => lstr_eqb nm k') l = false -> last_def l nm = None.
+Proof.
+  induction l as [|[k v] r IH]; cbn [existsb last_def]; intro H; [reflexivity|].
+  apply orb_false_iff in H. destruct H as [H1 H2]. rewrite (IH H2).
+  destruct (lstr_eqb k nm) eqn:E; [|reflexivity]. apply lstr_eqb_eq in E. subst k.
+  assert (lstr_eqb nm nm = true) by (apply lstr_eqb_eq; reflexivity). congruence.
+Qed.
+
+Lemma distinct_last_def l : keys_distinct l = true -> forall nm v, In (nm, v) l -> last_def l nm = Some v.
+Proof.
+  induction l as [|[k w] r IH]; intros Hd nm v Hin; [destruct Hin|].
+  cbn [keys_distinct] in Hd. apply andb_true_iff in Hd. destruct Hd as [Hk Hr]. apply negb_true_iff in Hk.
+  cbn [last_def]. destruct Hin as [E|Hin].
+  - injection E as -> ->. rewrite (last_def_absent r nm Hk).
+    assert (H : lstr_eqb nm nm = true) by (apply lstr_eqb_eq; reflexivity). rewrite H. reflexivity.
+  - rewrite (IH Hr nm v Hin). reflexivity.
+Qed.
+
+(* PARTIAL (strongest true statement): when no two macros of the type share a name, every name a user reads resolves to the
+   definition the model attributes to it *)
+Theorem c_header_effective_partial : forall consts fields, c_macros_distinct consts fields = true ->
+  forall nm src, In (nm, src) (c_header consts fields) -> last_def (c_header consts fields) nm = Some src.
+Proof. intros consts fields H. apply distinct_last_def. exact H. Qed.
+
+(* REFUTED without the premise: a type with a DSDL constant called EXTENT_BYTES_ exports the CONSTANT under <T>_EXTENT_BYTES_ *)
+Theorem c_header_effective_refuted : exists consts fields,
+  c_macros_distinct consts fields = false /\
+  In ([95; 69; 88; 84; 69; 78; 84; 95; 66; 89; 84; 69; 83; 95]%N, SrcRow RExtentBytes) (c_header consts fields) /\
+  last_def (c_header consts fields) [95; 69; 88; 84; 69; 78; 84; 95; 66; 89; 84; 69; 83; 95]%N = Some (SrcConstant [69; 88; 84; 69; 78; 84; 95; 66; 89; 84; 69; 83; 95]%N).
+Proof.
+  exists [[69; 88; 84; 69; 78; 84; 95; 66; 89; 84; 69; 83; 95]%N], []. vm_compute. split; [reflexivity|]. split; [|reflexivity]. tauto.
+Qed.
 
 (* ---- the up-front capacity check ---- *)
 Definition good_capcheck (cc : capcheck) : bool :=
